@@ -462,11 +462,12 @@ def u_voxelgrid(ctx):
     ctx.concrete_equal("filled_count", int(vg.filled_count), int(fill.sum()))
     # a point anywhere strictly inside cell c maps to c (offset symbolic in (-0.5, 0.5))
     o = ctx.reals("o", 3, -0.49, 0.49)
-    cell = idx[ctx.params["cell"]]
+    cell = np.array(ctx.params["cell"]) if not isinstance(ctx.params["cell"], int) else idx[ctx.params["cell"]]
     q = [[s[j] * (cell[j] + o[j]) + t[j] for j in range(3)]]
     q = nparr.set_sd(nparr.wrap(np.array(q, dtype=object)), np.float64) if ctx.sym else np.array(q, dtype=float)
     ctx.eq("every point strictly inside a cell maps to that cell", vg.points_to_indices(q), [cell.tolist()])
-    ctx.concrete_equal("is_filled of that point", bool(np.asarray(vg.is_filled(q)).reshape(-1)[0]), bool(fill[tuple(cell)]))
+    inside = all(0 <= int(c) < 2 for c in cell)
+    ctx.concrete_equal("is_filled of that point (False outside the grid)", bool(np.asarray(vg.is_filled(q)).reshape(-1)[0]), bool(fill[tuple(cell)]) if inside else False)
 
 
 F = "trimesh.voxel.runlength."
@@ -506,7 +507,10 @@ def units(tier):
             vtag = vname + "".join(map(str, vp.get("axes", vp.get("perm", vp.get("newshape", "")))))
             us.append(Unit("encoding-%s-%s" % (kind, vtag), u_encoding_classes, params=p, key="encoding/%s/%s" % (kind, vtag), functions=[E + "DenseEncoding", E + "SparseBinaryEncoding", E + "RunLengthEncoding", E + "BinaryRunLengthEncoding", E + "FlippedEncoding", E + "TransposedEncoding", E + "FlattenedEncoding", E + "ShapedEncoding"],
                            bounds="every 2x2x1 bool voxel array x every mask of that shape", max_paths=600, wall_s=300))
-    for pat, cell, sc in ((("10010110", 3, 0), ("00000001", 7, 2)) if not T else (("10010110", 3, 0), ("00000001", 7, 2), ("11111111", 0, 1), ("01100000", 5, 0), ("10010110", 6, 2))):
-        us.append(Unit("voxelgrid-%s-cell%d-scale%d" % (pat, cell, sc), u_voxelgrid, params={"pattern": pat, "cell": cell, "scale": sc}, key="voxelgrid", functions=["trimesh.voxel.base.VoxelGrid.points_to_indices", "VoxelGrid.indices_to_points", "VoxelGrid.is_filled", "VoxelGrid.volume", "trimesh.voxel.transforms.Transform"],
-                       bounds="2x2x2 grid, fill pattern %s, anisotropic scale from a rational catalogue, every translation |t|<=10, every point offset in (-0.49,0.49)^3 of cell %d" % (pat, cell), subspace="scale catalogue x symbolic translation x symbolic in-cell offset", wall_s=300))
+    cells = [("10010110", 3, 0), ("00000001", 7, 2), ("11111111", (-1, 0, -2), 0), ("10010110", (2, -1, 1), 2)]
+    if T:
+        cells += [("11111111", 0, 1), ("01100000", 5, 0), ("10010110", 6, 2), ("11111111", (-3, -1, -1), 1), ("11111111", (0, 0, 2), 0)]
+    for pat, cell, sc in cells:
+        us.append(Unit("voxelgrid-%s-cell%s-scale%d" % (pat, cell if isinstance(cell, int) else "".join("%+d" % c for c in cell), sc), u_voxelgrid, params={"pattern": pat, "cell": cell, "scale": sc}, key="voxelgrid", functions=["trimesh.voxel.base.VoxelGrid.points_to_indices", "VoxelGrid.indices_to_points", "VoxelGrid.is_filled", "VoxelGrid.volume", "trimesh.voxel.transforms.Transform"],
+                       bounds="2x2x2 grid, fill pattern %s, anisotropic scale from a rational catalogue, every translation |t|<=10, every point offset in (-0.49,0.49)^3 of cell %s (cells outside the grid, incl. negative indices, must map to their own index and read as not filled)" % (pat, cell), subspace="scale catalogue x symbolic translation x symbolic in-cell offset", wall_s=300))
     return us
